@@ -39,7 +39,9 @@ use datafusion_common::{
 use datafusion_expr::window_state::{
     PartitionBatchState, WindowAggState, WindowFrameContext, WindowFrameStateGroups,
 };
-use datafusion_expr::{Accumulator, PartitionEvaluator, WindowFrame, WindowFrameBound};
+use datafusion_expr::{
+    Accumulator, PartitionEvaluator, WindowFrame, WindowFrameBound, WindowFrameUnits,
+};
 use datafusion_physical_expr_common::sort_expr::PhysicalSortExpr;
 
 use datafusion_physical_expr_common::utils::evaluate_expressions_to_arrays;
@@ -356,6 +358,10 @@ pub trait AggregateWindowExpr: WindowExpr {
             // Start search from the last_range. This squeezes searched range.
             let cur_range =
                 window_frame_ctx.calculate_range(&order_bys, last_range, length, idx)?;
+            // The peers of a row with a `NULL` ORDER BY value delimit its
+            // `RANGE` frame, even if the frame is causal otherwise:
+            let is_causal =
+                is_causal && !is_null_range_row(self.get_window_frame(), &order_bys, idx);
             // Exit if the range is non-causal and extends all the way:
             if cur_range.end == length
                 && !is_causal
@@ -406,6 +412,19 @@ pub(crate) fn filter_arrays(
     mask: &BooleanArray,
 ) -> Result<Vec<ArrayRef>> {
     arrays.iter().map(|arr| filter_array(arr, mask)).collect()
+}
+
+/// Determines whether the row at `idx` has a `NULL` ORDER BY value in a `RANGE`
+/// frame. The frame of such a row is delimited by its peers (offsets do not
+/// apply to `NULL`), some of which may not have arrived yet, so computing its
+/// result depends on subsequent rows even if the frame itself is causal.
+pub(crate) fn is_null_range_row(
+    window_frame: &WindowFrame,
+    order_bys: &[ArrayRef],
+    idx: usize,
+) -> bool {
+    window_frame.units == WindowFrameUnits::Range
+        && order_bys.first().is_some_and(|col| col.is_null(idx))
 }
 
 /// Determines whether the end bound calculation for a window frame context is
@@ -508,7 +527,9 @@ fn is_end_bound_safe_for_range(
     match end_bound {
         WindowFrameBound::Preceding(value) => {
             let zero = ScalarValue::new_zero(&value.data_type())?;
-            if value.eq(&zero) {
+            // An offset does not apply to a `NULL` value: the frame of such a
+            // row ends with its peers, as it does for a zero offset.
+            if value.eq(&zero) || orderby_col.is_null(idx) {
                 is_row_ahead(orderby_col, most_recent_ob_col, sort_options)
             } else {
                 Ok(true)
